@@ -310,6 +310,23 @@ def lint_model(repo):
         'table at its own position, not one computed for the first read (88, 4); got %s' % (res if res is not None else exc,),
         'same line, same region: one names_at(position) per read')
 
+    # a name rebound between two reads of one line: each read is looked up at its own position and marks its own binding
+    oldb = _mk(st, 'AssignedName', 'value', fn_scope, (87, 4), (87, 9))
+    newb = _mk(st, 'AssignedName', 'value', fn_scope, (88, 0), (88, 20))
+    r1 = st.read('value', 88, 8)
+    r2 = st.read('value', 88, 35)
+    shared2 = r1.attrs['flow']
+    r2.attrs['flow'] = shared2
+    shared2.attrs['names_at'] = Native('names_at', lambda it, a_, k: {'value': newb} if tuple(a_[0]) >= (88, 20) else {'value': oldb})
+    st.scope = st.obj('SourceScope', 'analysed scope', all_names=[(shared2, oldb), (shared2, newb)])
+    st.usages = [r1, r2]
+    res, exc = _safe_lint(st)
+    rec('lookup', 'a name rebound between two reads of one line: both bindings are used', res == [],
+        '`value = value.strip(); return value.lower()` on one line: the first read refers to the earlier binding, the second to the '
+        'new one; a table kept per line serves the second read the stale entry and the new binding is reported unused; got %s'
+        % (res if res is not None else exc,), 'same line, rebinding between the reads: per-read lookup')
+    st.scope = st.obj('SourceScope', 'analysed scope', all_names=[])
+
     found = _mk(st, 'AssignedName', 'ghost', fn_scope)
     st.scope = st.obj('SourceScope', 'analysed scope', all_names=[(flow, found)])
     st.usages = [st.read('ghost', 88, 21, {'ghost': found, 'other': other})]
@@ -1792,12 +1809,18 @@ def cache_history_model(repo, depth=3):
         it.sys_modules = {}
         # the analysis of a module is stood for by the text it was computed from
         it.module_env('supp/module.py')['extract_scope'] = Native('extract_scope', lambda i2, a, k: ('analysis of', a[0].attrs.get('orig_source')))
+        # "now" is half a second after the latest save: every file counts as just written
+        clock = Native('time', lambda i2, a, k: max(it.mtimes.values()) + 0.5 if it.mtimes else 0.0)
+        for rel in ('supp/module.py', PROJECT):
+            it.module_env(rel)['time'] = clock
+        it.import_overrides[('time', 'time')] = clock
         proj_cls = facts.classes.get('Project')
         if proj_cls is None:
             raise AnalysisError('Project vanished')
         out = []
         ops = ['edit a', 'edit b', 'restore a', 'request a', 'request b', 'failing request a', 'create c', 'request c']
         bad = []
+        unstable = []
         n = 0
 
         def request(p, name, fail=False):
@@ -1807,6 +1830,9 @@ def cache_history_model(repo, depth=3):
             err = None
             try:
                 m = it.call(it.getattr(p, 'get_module'), [name], {})
+                m2 = it.call(it.getattr(p, 'get_module'), [name], {})
+                if m2 is not m:
+                    unstable.append(name)
                 r = it.getattr(m, 'scope')
                 if fail:
                     raise InterpRaise('SyntaxError', 'the request fails after its module was validated')
@@ -1827,6 +1853,7 @@ def cache_history_model(repo, depth=3):
                 it.files = {'<S>/a.py': 'a: revision 0', '<S>/b.py': 'b: revision 0'}
                 rev = {'<S>/a.py': 0, '<S>/b.py': 0}
                 clock = [1000.25]
+                oldest = {}
                 try:
                     p = it.instantiate(proj_cls, [['<S>']], {})
                     request(p, 'a')
@@ -1841,7 +1868,8 @@ def cache_history_model(repo, depth=3):
                             it.files[path] = '%s: revision %d' % (mod, rev[path])
                         elif kind == 'restore':
                             rev[path] += 1
-                            it.mtimes[path] = it.mtimes[path] - 0.125
+                            oldest[path] = oldest.get(path, 1000.25) - 0.125     # older than any time this file ever had:
+                            it.mtimes[path] = oldest[path]                       # a modification time is never reused
                             it.files[path] = '%s: restored (%d)' % (mod, rev[path])
                         elif kind == 'create':
                             if path not in it.fs:
@@ -1869,6 +1897,33 @@ def cache_history_model(repo, depth=3):
                     'answers from a stale analysis' % ((' ; '.join(bad[0][0]), bad[0][1], bad[0][2], bad[0][3]) if bad else ('', '', '', '')),
                     '%d histories: the served analysis is always that of the current file content' % n))
         out.append(('history-count', 'histories explored', n >= 100, 'only %d histories' % n, None))
+        out.append(('identity', 'a module keeps its identity within one request', not unstable,
+                    'two consecutive get_module(%r) calls inside one change-checking context returned different module objects: the '
+                    're-entrancy guards of the evaluator compare nodes by identity, so an import cycle between freshly saved modules '
+                    'recurses without end' % (unstable[0] if unstable else ''), 'get_module is stable within a request'))
+        # the package-name cache: a directory that was not a package when first asked may have become one since
+        it2 = Interp(repo, facts)
+        it2.module_env(PROJECT)['SUFFIXES'] = ['.py']
+        it2.sys_path = []
+        it2.sys_modules = {}
+        it2.reset_path([])
+        it2.fs = {'<S>/newpkg/mod.py', '<S>/newpkg/util.py'}
+        p = it2.instantiate(proj_cls, [['<S>']], {})
+        steps = []
+        for phase in ('before __init__.py exists', 'before __init__.py exists (asked again)', 'after __init__.py was created',
+                      'after __init__.py was created (asked again)'):
+            if phase.startswith('after'):
+                it2.fs.add('<S>/newpkg/__init__.py')
+            try:
+                steps.append(it2.call(it2.getattr(p, 'norm_package'), ['.util', '<S>/newpkg/mod.py'], {}))
+            except InterpRaise as e:
+                steps.append(e.exc_name)
+            except Uninterpretable as e:
+                raise AnalysisError('norm_package is outside the interpretable subset: %s' % e)
+        out.append(('history', 'a directory that becomes a package is seen as one', steps == ['ImportError', 'ImportError', 'newpkg.util', 'newpkg.util'],
+                    'norm_package(".util") from <S>/newpkg/mod.py asked twice before and twice after newpkg/__init__.py was created must '
+                    'give ImportError, ImportError, newpkg.util, newpkg.util (what a new project answers on each disk state); got %s'
+                    % (steps,), 'relative names are resolved against the current package structure'))
         return out
     return repo.memo('cache-history-model-%d' % depth, build)
 
